@@ -189,9 +189,10 @@ pub fn record_states(
                     "{{\"index\":{},\"items\":{},\"shifts\":{},\"gotos\":{},\"reds\":{}}}",
                     st.index.0,
                     list(&st.items.vec, |it| format!(
-                        "[{},{}]",
+                        "[{},{},{}]",
                         prod_index(grammar, it.production),
-                        it.index
+                        it.index,
+                        list(it.lookahead.iter(), |t| esc(&t.to_string()))
                     )),
                     list(&st.shifts, |(t, s)| format!("[{},{}]", esc(&t.to_string()), s.0)),
                     list(&st.gotos, |(n, s)| format!("[{},{}]", esc(&n.to_string()), s.0)),
